@@ -267,11 +267,12 @@ class ModelGen:
             else:
                 names.append(plain.pop())
         rng.shuffle(names)
+        cell_params = CELL_PARAMS + ([] if _is_active(K_CELLS_PARAM_VAL) else list(CACHE_TEMPLATE_LOCALS))
         for r, nm in enumerate(names):
             self.rank[nm] = r
             np_ = rng.choice([0, 1, 1, 1, 2, 2])
             ps = []
-            for c in rng.sample(CELL_PARAMS, np_):
+            for c in rng.sample(cell_params, np_):
                 ps.append([c, None])
             if ps and rng.random() < 0.35:
                 ps[-1][1] = rng.randint(-1, 5)
@@ -366,11 +367,38 @@ class ModelGen:
                 self.reftype[nm] = ("ispace", s) if s.formula else ("space", s)
             else:
                 self.reftype[nm] = ("lit",)
+        # MODEL-LEVEL-ONLY references to cells / spaces INSIDE parametrised trees (and the parametrised spaces
+        # themselves): a model-level reference has no mode and denotes the static object also when it is read inside an
+        # item of that very tree
+        self.model_only = set()
+        in_tree_cells = [(s, n) for s in self.spaces for n in s.visible_cells() if s.in_param_tree()]
+        in_tree_spaces = [s for s in self.spaces if s.in_param_tree()]
+        p_g = {"items": 0.7, "mixed": 0.4, "inherit": 0.3}.get(self.profile, 0.25)
+        for nm in ("mg1", "mg2", "mg3"):
+            if not in_tree_spaces or rng.random() > p_g:
+                continue
+            if in_tree_cells and rng.random() < 0.5:
+                s, n = rng.choice(in_tree_cells)
+                self.reftype[nm] = ("cells", s, n)
+            else:
+                s = rng.choice(in_tree_spaces)
+                self.reftype[nm] = ("ispace", s) if s.formula else ("space", s)
+            self.ref_universe.append(nm)
+            self.model_only.add(nm)
+            self.shadowed.add(nm)
+            self.feat("model_level_ref_into_param_tree")
         self.refval = {}        # (space dotted | "", name) -> (type tuple, valspec)
         shared = None
+        # the value a parameter name has where no ItemSpace binds it (static spaces): a model-level reference of the
+        # same name, so that formulas that depend on the arguments have values on the static spaces too
+        for s in self.spaces:
+            for p_, _d in (s.formula or []):
+                if p_ not in self.grefs and rng.random() < 0.5:
+                    self.grefs[p_] = {"name": p_, "val": {"lit": rng.randint(-3, 9)}, "mode": "auto", "_type": ("int",)}
+                    self.feat("model_level_ref_named_like_param")
         # model level
         for nm in self.ref_universe:
-            if rng.random() < 0.3:
+            if nm in self.model_only or rng.random() < 0.3:
                 rd = self._make_ref(None, nm, shared)
                 if rd:
                     self.grefs[nm] = rd
@@ -382,6 +410,8 @@ class ModelGen:
             for b in s.all_bases():
                 vis.update(b.own_refs)
             for nm in self.ref_universe:
+                if nm in self.model_only:
+                    continue
                 p = 0.35 if nm not in vis else 0.25
                 if rng.random() < p:
                     rd = self._make_ref(s, nm, shared)
@@ -582,6 +612,43 @@ class ModelGen:
                         self.feat("valuekind_read_in_param_tree")
                     if nm not in s.own_refs:
                         self.feat("valuekind_read_inherited_or_model_level")
+        # reader cells for the model-level references into parametrised trees: which object does the name denote
+        # HERE (the static one, whatever item the reader runs in)?  the value depends on the arguments
+        for s in self.spaces:
+            if not getattr(self, "model_only", None) or not (s.in_param_tree() or self.rng.random() < 0.3):
+                continue
+            for nm in sorted(self.model_only):
+                rd = self.grefs.get(nm)
+                if rd is None:
+                    continue
+                ty = rd["_type"]
+
+                def lits(sig):
+                    return ", ".join(str(self.rng.randint(0, 2)) for p_, d_ in sig if d_ is None)
+                if ty[0] == "cells":
+                    src = "lambda: %s(%s)" % (nm, lits(self.cellsig[ty[2]]))
+                elif ty[0] == "space":
+                    cs = ty[1].visible_cells()
+                    if not cs:
+                        continue
+                    cn = self.rng.choice(cs)
+                    src = "lambda: %s.%s(%s)" % (nm, cn, lits(self.cellsig[cn]))
+                else:
+                    cs = ty[1].visible_cells()
+                    if not cs or [a for a in ty[1].ancestors() if a.formula]:
+                        continue
+                    cn = self.rng.choice(cs)
+                    src = "lambda: %s(%s).%s(%s)" % (nm, lits(ty[1].formula) or "1", cn, lits(self.cellsig[cn]))
+                rn = "rg_" + nm
+                if rn in s.own_cells or rn in s.visible_cells():
+                    continue
+                self.cellsig[rn] = []
+                self.ret_int[rn] = False
+                self.rank[rn] = -1
+                s.own_cells[rn] = {"name": rn, "src": src, "cached": self.rng.random() < 0.7}
+                self.feat("model_level_objref_reader")
+                if s.in_param_tree():
+                    self.feat("model_level_objref_read_in_param_tree")
         # probe cells `lambda: name` (what does a name resolve to in this space / instance?)
         for s in self.spaces:
             if not s.in_param_tree() and self.rng.random() < 0.7:
@@ -1219,6 +1286,10 @@ K_KEYWORD_GLOBAL = "C15-keyword-named-like-global"
 K_NONFINITE = V.K_NONFINITE
 K_STATIC_BUILTIN_PARAM = "C15-static-access-builtin-named-param"
 K_PARAM_ZIP = "C15-param-named-zip"
+K_NESTED_AUTO = "C15-nested-item-auto-ref"
+K_CELLS_PARAM_VAL = "C15-cells-param-named-val"
+# locals of the generated cache method: a cells parameter of that name breaks it
+CACHE_TEMPLATE_LOCALS = ("val",)
 # built-ins that the generated `__call__` of an ItemSpace uses by name: a parameter of that name breaks it
 CALL_TEMPLATE_BUILTINS = ("zip",)
 
@@ -1467,7 +1538,55 @@ def query_triggers(desc, steps, src):
         used = set()
     if any(n in ALL_BUILTINS and n in used for n in unbound):
         res.add(K_STATIC_BUILTIN_PARAM)
+    # an item below an item, and the formula reads an auto reference that points out of the inner root but into an
+    # outer one
+    n_items = sum(1 for st in steps if "item" in st)
+    if n_items >= 2 and used & nested_auto_refs(desc, path):
+        res.add(K_NESTED_AUTO)
     return _only_active(res)
+
+
+def nested_auto_refs(desc, path):
+    """names of the references visible in the space at `path` (own, of enclosing spaces' bases: not followed) whose
+    mode is auto, whose defining space has an innermost parametrised root R that lies inside another parametrised
+    space, and whose target is outside R but inside an enclosing parametrised space"""
+    from .exportworld import iter_spaces
+    by_path = dict(iter_spaces(desc))
+    path = tuple(path)
+    roots = [path[:k] for k in range(1, len(path) + 1) if by_path.get(path[:k], {}).get("formula")]
+    if len(roots) < 2:
+        return set()
+    inner, outers = roots[-1], roots[:-1]
+    res = set()
+
+    def collect(p, seen):
+        sp = by_path.get(p)
+        if sp is None or p in seen:
+            return
+        seen.add(p)
+        for r in sp.get("refs", []):
+            if r.get("mode", "auto") == "auto" and "obj" in r.get("val", {}):
+                tp = tuple(r["val"]["obj"].split("."))
+                if tp[:len(inner)] != inner and any(tp[:len(o)] == o for o in outers):
+                    res.add(r["name"])
+        for b in sp.get("bases", []):
+            collect(tuple(b.split(".")), seen)
+    collect(path, set())
+    return res
+
+
+def _visible_sources(sp, by_path):
+    res, seen = [], set()
+
+    def collect(s):
+        res.extend(c["src"] for c in s.get("cells", []))
+        for b in s.get("bases", []):
+            bp = tuple(b.split("."))
+            if bp in by_path and bp not in seen:
+                seen.add(bp)
+                collect(by_path[bp])
+    collect(sp)
+    return res
 
 
 def desc_triggers(desc):
@@ -1520,6 +1639,13 @@ def desc_triggers(desc):
                 params += [p for p, _ in f]
         if any(n in CALL_TEMPLATE_BUILTINS for n in params):
             keys.add(K_PARAM_ZIP)
+        for src in _visible_sources(sp, by_path):
+            try:
+                a = _func_node(src).args
+                if any(x.arg in CACHE_TEMPLATE_LOCALS for x in a.args):
+                    keys.add(K_CELLS_PARAM_VAL)
+            except SyntaxError:
+                pass
         children = set(c["name"] for c in sp.get("spaces", []))
         for n in set(params) | children:
             if n in ALL_BUILTINS and n not in refs and n not in cells:
